@@ -53,7 +53,7 @@ async def _producer_session(noise, frame, k, consumers):
             await PI.settle()
         producer = len([t for t in proto.tasks if "frame_producer" in t.get_name() and not t.done()])
         res = {"producer_alive": producer, "delivered": len(rec.calls), "unread": len(reader._buffer),
-               "connected": proto.connected.is_set()}
+               "connected": proto.connected.is_set(), "calls": sorted([c[1], c[2]] for c in rec.calls)}
         try:
             await asyncio.wait_for(proto.shutdown(), timeout=600)
         except asyncio.TimeoutError:
@@ -184,16 +184,35 @@ class C14(Prop):
             if not self._producer_ok(c, b):
                 fails.append({"case": c, "impl": b, "reason": "after frame-shaped line noise the producer loop is not running any more, or the run of "
                               "valid frames behind the noise was not delivered"})
+        # arbitrary noise (the three noise classes of the reader sessions) and a run of a random valid frame: the frames that reach
+        # a device are exactly the deliveries the Coq reader model predicts for the stream, and the producer is still running
+        kinds = [r["code"] for r in G.tables()["frame_types"]]
+        for _ in range(60 if tier == "quick" else 1200):
+            noise = G.noise(rng, rng.choice([0, 1, 5, 20, 60, 200]), rng.choice(["uniform", "dense68", "header"]))
+            f, fb = G.rand_frame(rng, kinds, own=True, known_sender=True, known_kind=True, maxlen=rng.choice([4, 20, 60]))
+            c = {"kind": "producer", "plan": None, "noise": list(noise), "frame": list(fb), "k": rng.choice([1, 3, 2 + 1000 // len(fb)]),
+                 "consumers": rng.choice([1, 2, 3])}
+            b = self._producer_run(c)
+            self._producer_sessions += 1
+            if not self._producer_ok(c, b):
+                fails.append({"case": c, "impl": b, "reason": "the producer loop stopped, or the frames handed to the devices are not the deliveries the "
+                              "reader model predicts for this stream"})
         return fails
 
     def _producer_run(self, c):
         from harness import proto_impl as PI, vloop
         kind, payload = PI.captured()["sensor"]
-        return vloop.run(_producer_session, bytes(c["noise"]), G.enc(kind, 0x56, 0x45, 48, 5, payload), c["k"], c["consumers"])
+        frame = bytes(c["frame"]) if c.get("frame") else G.enc(kind, 0x56, 0x45, 48, 5, payload)
+        return vloop.run(_producer_session, bytes(c["noise"]), frame, c["k"], c["consumers"])
 
     @staticmethod
     def _producer_ok(c, b):
-        return b["producer_alive"] == 1 and b["connected"] and b["delivered"] == c["k"] and b["unread"] == 0 and b.get("shutdown", True)
+        alive = b["producer_alive"] == 1 and b["connected"] and b.get("shutdown", True)
+        if c.get("frame") is None:
+            return alive and b["delivered"] == c["k"] and b["unread"] == 0
+        outs = model.call("read_all", bytes(c["noise"]) + bytes(c["frame"]) * c["k"])
+        want = sorted([o[1][3], o[1][0]] for _, o in outs if o[0] == 0 and o[1][2] in (0x45, 0x51))
+        return alive and b["calls"] == want
 
     def extra_coverage(self):
         return {"producer_sessions": getattr(self, "_producer_sessions", 0)}
